@@ -20,6 +20,10 @@ pub struct Oracle {
     pub j: Mat,
     pub l: Mat,
     pub zero_fixed: bool,
+    /// inverses of the jump maps (None in interpreter runs): used to aim at states
+    /// whose IMAGE under jump / long_jump is structured
+    pub j_inv: Option<Mat>,
+    pub l_inv: Option<Mat>,
 }
 
 static ORACLES: OnceLock<Mutex<HashMap<usize, std::sync::Arc<Oracle>>>> = OnceLock::new();
@@ -43,7 +47,7 @@ pub fn oracle_for(ti: usize, r: &mut Report) -> std::sync::Arc<Oracle> {
             Some(Mat { n, cols })
         };
         if let (Some(t), Some(j), Some(l)) = (mat("t"), mat("j"), mat("l")) {
-            let o = std::sync::Arc::new(Oracle { t, j, l, zero_fixed: true });
+            let o = std::sync::Arc::new(Oracle { t, j, l, zero_fixed: true, j_inv: None, l_inv: None });
             m.lock().unwrap().insert(ti, o.clone());
             return o;
         }
@@ -53,7 +57,8 @@ pub fn oracle_for(ti: usize, r: &mut Report) -> std::sync::Arc<Oracle> {
         let n = (S::SEED_LEN * 8) as u32;
         let j = t.pow2k(n / 2);
         let l = j.pow2k(n / 4); // 2^(n/2) * 2^(n/4) squarings = T^(2^(3n/4))
-        std::sync::Arc::new(Oracle { t, j, l, zero_fixed: z.is_zero() })
+        let (j_inv, l_inv) = (j.inverse(), l.inverse());
+        std::sync::Arc::new(Oracle { t, j, l, zero_fixed: z.is_zero(), j_inv, l_inv })
     });
     m.lock().unwrap().insert(ti, o.clone());
     o
@@ -139,8 +144,19 @@ fn case_typed<S: Spec>(ti: usize, sub: &str, id: u64, r: &mut Report) {
         }
         "random" => {
             let (class, mut s) = gen_seed(&mut p, S::SEED_LEN, wb, false);
+            // a quarter of the states are pre-images: jump(s) or long_jump(s) IS the structured state
+            let pre = p.below(8);
+            if pre < 2 {
+                if let Some(inv) = if pre == 0 { &o.j_inv } else { &o.l_inv } {
+                    let v = inv.apply(&BitVec::from_bytes(&s)).to_bytes();
+                    if v.iter().any(|&b| b != 0) {
+                        s = v;
+                        r.cov("preimage_of_structured_under_jump");
+                    }
+                }
+            }
             // mid-history states: advance the generator a little first
-            let how = if p.chance(1, 3) {
+            let how = if pre >= 2 && p.chance(1, 3) {
                 let mut g = inject::<S>(&s);
                 for _ in 0..p.range(1, 40) {
                     native_step::<S>(&mut g);
@@ -257,12 +273,64 @@ fn case_typed<S: Spec>(ti: usize, sub: &str, id: u64, r: &mut Report) {
             r.covn(&format!("related_pairs:{}", S::NAME), n_pairs);
             r.distinct(hkey(&[&"related", &S::NAME, &x, &i, &j]));
         }
+        // the FIRST jump()/long_jump() calls of a fresh process, made at the same moment
+        // on 16 threads, each with its own generator (lazily initialised shared tables,
+        // scratch buffers): the monitor re-executes itself as a child process
+        "first_call_race" => {
+            let long = id % 2 == 1;
+            let exe = match std::env::current_exe() { Ok(e) => e, Err(_) => { r.inconclusive("current_exe unavailable".into()); return; } };
+            let out = std::process::Command::new(&exe).args(["--c06-race-child", &ti.to_string(), if long { "1" } else { "0" }, &id.to_string()]).output();
+            let out = match out { Ok(o) if o.status.success() => o, _ => { r.inconclusive("first_call_race: child process failed".into()); return; } };
+            let m = if long { &o.l } else { &o.j };
+            let mut n = 0;
+            for line in String::from_utf8_lossy(&out.stdout).lines() {
+                let mut it = line.split(' ');
+                let (Some(a), Some(b)) = (it.next(), it.next()) else { continue };
+                let (before, after) = (unhex(a), unhex(b));
+                let want = m.apply(&BitVec::from_bytes(&before)).to_bytes();
+                r.eval();
+                n += 1;
+                if after != want {
+                    r.violation(format!("{}:{}:first_calls_racing_in_a_fresh_process", S::NAME, if long { "long_jump" } else { "jump" }), sub, id, json!({
+                        "type": S::NAME, "state": hex(&before), "expected_state": hex(&want), "observed_state": hex(&after),
+                        "note": "16 threads, each with its own generator, made the first jump of a fresh process at the same time"}));
+                    return;
+                }
+            }
+            if n < 16 { r.inconclusive("first_call_race: child printed too few results".into()); return; }
+            r.cov(&format!("first_call_race:{}", S::NAME));
+            r.distinct(hkey(&[&"first_call_race", &S::NAME, &id]));
+        }
         _ => r.inconclusive(format!("unknown sub-monitor {} for C06", sub)),
     }
 }
 
+/// child side of first_call_race: 16 threads, one barrier, one jump each; prints
+/// `<state before> <state after>` (hex) per thread
+pub fn race_child(ti: usize, long: bool, id: u64) {
+    with_spec!(ti, S => {
+        let barrier = std::sync::Barrier::new(16);
+        let lines = std::sync::Mutex::new(Vec::new());
+        std::thread::scope(|sc| {
+            for k in 0..16u64 {
+                let (barrier, lines) = (&barrier, &lines);
+                sc.spawn(move || {
+                    let mut p = Prng::derive(id, k, 1);
+                    let mut s = p.bytes(S::SEED_LEN);
+                    s[0] |= 1;
+                    let mut g = inject::<S>(&s);
+                    barrier.wait();
+                    if long { S::long_jump(&mut g); } else { S::jump(&mut g); }
+                    lines.lock().unwrap().push(format!("{} {}", hex(&s), hex(&image::<S>(&g))));
+                });
+            }
+        });
+        for l in lines.into_inner().unwrap() { println!("{}", l); }
+    });
+}
+
 fn case(sub: &str, id: u64, r: &mut Report) {
-    let ti = if sub == "basis" { (id / 1024) as usize } else { JUMP_TYPES[(Prng::new(id ^ 0x77).below(12)) as usize] };
+    let ti = if sub == "basis" { (id / 1024) as usize } else if sub == "first_call_race" { JUMP_TYPES[((id / 2) % 12) as usize] } else { JUMP_TYPES[(Prng::new(id ^ 0x77).below(12)) as usize] };
     with_spec!(ti, S => {
         if S::HAS_JUMP { case_typed::<S>(ti, sub, id, r) }
     });
@@ -305,13 +373,25 @@ pub fn run(ctx: &Ctx, only: Option<&Only>) -> Report {
     total.merge(drive(ctx, "commute", ctx.n(2_000, 2_000), secs * 0.2, |id, r| case("commute", id, r)));
     total.merge(drive(ctx, "linearity", ctx.n(2_400, 2_400), secs * 0.2, |id, r| case("linearity", id, r)));
     total.merge(drive(ctx, "related_pairs", ctx.n(600, 600), secs * 0.1, |id, r| case("related_pairs", id, r)));
+    if ctx.scale >= 1.0 {
+        // 12 types x {jump, long_jump} x 3 fresh processes
+        total.merge(par(ctx.threads.min(4), |t, r| {
+            for k in 0..72u64 {
+                if k as usize % ctx.threads.min(4) == t {
+                    run_case("first_call_race", k, r, &|id, r: &mut Report| case("first_call_race", id, r));
+                }
+            }
+        }));
+    }
     for &ti in &JUMP_TYPES {
         let n = with_spec!(ti, S => S::SEED_LEN * 8) as u64;
         total.floor(&format!("basis:{}", TYPE_NAMES[ti]), n);
         total.floor(&format!("type:{}", TYPE_NAMES[ti]), 100);
         total.floor(&format!("linearity_obs:{}", TYPE_NAMES[ti]), 1000);
         total.floor(&format!("related_pairs:{}", TYPE_NAMES[ti]), 500);
+        total.floor(&format!("first_call_race:{}", TYPE_NAMES[ti]), 4);
     }
+    total.floor("preimage_of_structured_under_jump", 500);
     total.note("inference: the real step agreed with the observed matrix T on every linearity observation counted in linearity_obs:*; jump/long_jump agree with T^(2^(n/2)) / T^(2^(3n/4)) on all n basis states, hence (by linearity of both sides) on every state consistent with those observations".into());
     total
 }
